@@ -326,7 +326,7 @@ def fold(e, env=None):
 # ---------------------------------------------------------------------------------------------------------------
 # Small-step interpreter for *pure* helper functions over a finite abstract domain (used to enumerate abstract cases such as
 # "(q1 < q2, q1 == q2, q1 > q2) x (same base / different base)"; never used on input data).
-MUTATORS = {list: {'append', 'extend', 'pop', 'insert', 'clear', 'sort', 'reverse'}, dict: {'update', 'setdefault', 'pop', 'clear'}, set: {'add', 'discard', 'update', 'remove'}}
+MUTATORS = {list: {'append', 'extend', 'pop', 'insert', 'clear', 'sort', 'reverse'}, dict: {'update', 'setdefault', 'pop', 'clear'}, set: {'add', 'discard', 'update', 'remove', 'pop', 'clear'}}
 
 
 class _Return(Exception):
